@@ -182,7 +182,12 @@ def ruletest_event(i, rr, doc, entry="raw", lit=None):
     e["entry"] = entry
     e["rule"] = enc_rule_recipe(rr)
     e["doc"] = enc_val(doc)
-    rule = build_rule(rr)
+    out0, rule = outcome_of(lambda: build_rule(rr))
+    if out0 in ("raised:TypeError", "raised:ValueError"):
+        raise TypeError("unconstructible recipe")
+    if out0 != "ok":
+        e["outcome"] = out0                       # an internal error while building: judged as a raise
+        return e
     e["proj"] = enc_rule(rule)
     arg = doc if entry == "raw" else valida.Data(doc)
     with watch(objs=[rule], docs=[doc]) as w:
@@ -212,7 +217,11 @@ def validate_obs(rules_rr, doc):
     """run Schema(rules).validate(doc); returns (outcome, dict of observations, schema)"""
     import valida
 
-    rules = [build_rule(rr) for rr in rules_rr]
+    out0, rules = outcome_of(lambda: [build_rule(rr) for rr in rules_rr])
+    if out0 in ("raised:TypeError", "raised:ValueError"):
+        raise TypeError("unconstructible recipe")
+    if out0 != "ok":
+        return out0, {"outcome": out0, "order": [], "writes": [], "unchanged": True}
     schema = valida.Schema(rules)
     order = []
     for r in schema.rules:
